@@ -574,7 +574,12 @@ func c04Classify(p *core.Program, r *core.Report, f *core.Func, os OrderSource) 
 		return
 	}
 	// exceptions first (exact symbol)
-	for _, key := range []string{f.QName() + "|" + os.Kind, f.QName() + "|" + os.Kind + "|" + rangeOperand(os)} {
+	keys := []string{f.QName() + "|" + os.Kind, f.QName() + "|" + os.Kind + "|" + rangeOperand(os)}
+	if u := unitRoot(p, f); u != f.Root() {
+		// the construct sits in an unexported helper that is part of an exported function's unit: the exception is the unit's
+		keys = append(keys, u.QName()+"|"+os.Kind, u.QName()+"|"+os.Kind+"|"+rangeOperand(os))
+	}
+	for _, key := range keys {
 		if ex, ok := a2Exceptions[key]; ok {
 			good, how := ex.Side(p, f, os)
 			if good {
@@ -798,12 +803,13 @@ func sideMapKeysPreordered(p *core.Program, f *core.Func, os OrderSource) (bool,
 	}
 	coll := sh.Collected[0]
 	self := f.Root().Obj()
+	unitSelf := unitRoot(p, f).Obj() // the printer's entry when the map arm lives in a helper of it
 	var orderField *types.Var
 	for _, c := range sh.Calls {
 		if free, _ := orderFreeCall(p, info, c, 0, map[*types.Func]bool{}); free {
 			continue
 		}
-		if core.CalleeFunc(info, c) != self || len(c.Args) != 1 || c.Ellipsis.IsValid() || core.VarOf(info, c.Args[0]) != core.VarOf(info, rs.Value) || rs.Value == nil {
+		if (core.CalleeFunc(info, c) != self && core.CalleeFunc(info, c) != unitSelf) || len(c.Args) != 1 || c.Ellipsis.IsValid() || core.VarOf(info, c.Args[0]) != core.VarOf(info, rs.Value) || rs.Value == nil {
 			return false, "`" + core.ExprStr(c) + "` is evaluated per key in map order and is neither order-free nor the option-less stateless rendering of the key"
 		}
 		// the receiver: a local &Dumper{namer: T{}}
